@@ -1,7 +1,7 @@
 (* C12 — the iHam orthoXML export describes the same HOG. *)
 From Coq Require Import List Arith Bool String Permutation.
-From PyHam Require Import Tax Ortho Loader Mapper Preds Nav Export Filter Hist Spell Whole.
-From PyHam.proofs Require Import ExplicitFacts ExportFacts LoftFacts SpellFacts WholeFacts RoundTripFacts DocRoundTripFacts.
+From PyHam Require Import Tax Ortho Loader Mapper Preds Nav Export Filter Hist Spell Whole Page.
+From PyHam.proofs Require Import ExplicitFacts ExportFacts LoftFacts SpellFacts WholeFacts RoundTripFacts DocRoundTripFacts PageFacts.
 Import ListNotations.
 
 (* Proved for every loaded HOG (any shape, no alignment hypothesis): the exported groups reference exactly
@@ -18,8 +18,13 @@ Import ListNotations.
    tree with pairwise different node names, the exported document (species blocks and groups) is a consistent
    input; loading it with the same species tree succeeds and yields exactly one top-level HOG, which matches the
    history of the original HOG, and the re-loaded forest satisfies wfbc.
-   Not modelled (checked on the implementation only): the HTML page assembly of create_iHam, which embeds this
-   orthoXML, the species subtree and one record per member gene. *)
+   The page (Page.v; c12_page_always_built, c12_page_embeds, c12_page_one_record_per_member,
+   c12_page_records_match_export): for every aligned HOG the page is built; what it embeds is the exported
+   document above, the species subtree below the HOG's taxon and one record per member gene, in the order of
+   get_all_descendant_genes, each naming the species under which the exported document declares that gene.
+   Not modelled (checked on the implementation only): the text of the page, i.e. the html template the three
+   values are substituted into and their serialisation (lxml, ete3 newick writer, json); the correspondence
+   check reads the three values back out of the real page and compares them with the model's. *)
 Theorem c12_references : forall t h ce, Permutation (flat_map refs_of (export t ce h)) (genes_of h).
 Proof. intros t h ce. exact (export_refs t h ce). Qed.
 Print Assumptions c12_references.
@@ -84,6 +89,41 @@ Example c12_roundtrip_nonvacuous :
   match mapM (eval_top tr genes12) (export_groups tr fam) init_state with
   | Ok (tops, _) => map (fun top => (htax (snd top), wf_node tr (snd top), List.length (hogs_of (snd top)), genes_of (snd top))) tops
                     = [([1], true, 3, ["c1"; "h1"; "h2"; "p2"])]
+  | Err _ => False
+  end.
+Proof. vm_compute. split; reflexivity. Qed.
+
+(* ---------- the iHam page ---------- *)
+Theorem c12_page_always_built : forall t protid o p m ks,
+  wf_node t (HHog o p m ks) = true -> exists pg, iham_page t protid (HHog o p m ks) = Ok pg.
+Proof. exact page_built. Qed.
+Print Assumptions c12_page_always_built.
+
+Theorem c12_page_embeds : forall t protid h pg,
+  iham_page t protid h = Ok pg ->
+  pg_doc pg = export_doc t protid h /\ sub t (htax h) = Some (pg_tree pg) /\ pg_fam pg = fam_data t protid h.
+Proof. exact page_embeds. Qed.
+Print Assumptions c12_page_embeds.
+
+Theorem c12_page_one_record_per_member : forall t protid h pg,
+  iham_page t protid h = Ok pg ->
+  map fr_id (pg_fam pg) = genes_of h /\ map fr_protid (pg_fam pg) = map protid (genes_of h) /\
+  List.length (pg_fam pg) = List.length (genes_of h).
+Proof. exact page_records. Qed.
+Print Assumptions c12_page_one_record_per_member.
+
+Theorem c12_page_records_match_export : forall t protid h r,
+  In r (fam_data t protid h) ->
+  exists sp, In sp (export_species t protid h) /\ sp_name sp = fr_species r /\
+             In {| gd_id := fr_id r; gd_xrefs := [("protId"%string, fr_protid r)] |} (sp_genes sp).
+Proof. exact page_record_declared. Qed.
+Print Assumptions c12_page_records_match_export.
+
+Example c12_page_nonvacuous :
+  match iham_page tr (fun g => append "P_" g) fam with
+  | Ok pg => pg_tree pg = SNode "M" [SNode "E" [SNode "H" []; SNode "P" []]; SNode "C" []] /\
+             map (fun r => (fr_species r, fr_protid r, fr_id r)) (pg_fam pg) =
+               [("H", "P_h1", "h1"); ("H", "P_h2", "h2"); ("P", "P_p2", "p2"); ("C", "P_c1", "c1")]
   | Err _ => False
   end.
 Proof. vm_compute. split; reflexivity. Qed.
